@@ -7,6 +7,7 @@
 #include <tins/ipsec.h>
 #include <tins/pppoe.h>
 #include <tins/mpls.h>
+#include <tins/pdu_cacher.h>
 
 typedef std::vector<uint8_t> Bytes;
 // region monitor (hook H1): a layer that changes bytes of its inner layers while serialising is reported here
@@ -82,6 +83,13 @@ static PDU* extra(int id, vh::Rng& rng, Entry& e) {
     case 133: { PPPoE p; p.code(0x65); p.session_id((uint16_t)(1 + rng.below(65535))); p.service_name("svc"); return (eth0() / p).clone(); }
     case 134: { PPPoE p; p.code(0xa7); p.session_id((uint16_t)(1 + rng.below(65535))); p.generic_error("bye"); return (eth0() / p).clone(); }
     case 135: { PPPoE p; p.code(0xa7); p.session_id((uint16_t)(1 + rng.below(65535))); p.host_uniq(std::vector<uint8_t>(3, 0x5a)); return (eth0() / Dot1Q(12) / p).clone(); }
+    // ---- C02 only (the dissector of C05 has nothing to say about them): a PDUCacher with layers stacked below it, and objects
+    //      whose type was changed after extensions / options had been added
+    // (a transport layer directly below a PDUCacher<IP> is not generated: TCP/UDP tins_cast their parent to IP, and the wrapper
+    //  answers to IP's type - the known finding F8 of C13, here inside serialize())
+    case 141: { PDUCacher<UDP> c(UDP(7, 9)); c /= raw(rng, rng.range(1, 40)); return (eth0() / ip0() / c).clone(); }
+    case 142: { ICMP ic(ICMP::TIME_EXCEEDED); ic.extensions().add_extension(some_ext(rng)); Bytes q = quoted4(rng, 4 * rng.range(0, 40)); ic.type(ICMP::ECHO_REPLY); return (eth0() / ip0() / ic / RawPDU(q.begin(), q.end())).clone(); }
+    case 143: { ICMPv6 ic(ICMPv6::TIME_EXCEEDED); ic.extensions().add_extension(some_ext(rng)); Bytes q = quoted6(rng, 8 * rng.range(0, 14)); ic.type(ICMPv6::ECHO_REPLY); return (eth0() / ip60() / ic / RawPDU(q.begin(), q.end())).clone(); }
     case 128: { IP ip = ip0(); ip.add_option(IP::option(IP::option_identifier(IP::NOOP, IP::CONTROL, 0))); ICMP ic(ICMP::TIME_EXCEEDED); ic.extensions().add_extension(some_ext(rng)); ic.use_length_field(true); Bytes q = quoted4(rng, 4 * rng.range(20, 40));
                 return (eth0() / ip / ic / RawPDU(q.begin(), q.end())).clone(); }
     }
